@@ -392,9 +392,33 @@ _C16b = [
     M(["C16"], "frame-express-in-no-invert", "distance3d/hydroelastic_contact/_rigid_body.py", "RigidBody.express_in", "origin2new_body = invert_transform(new_body2origin)", "origin2new_body = new_body2origin", ["R-FRAME", "express_in"]),
 ]
 
-_ALL = _C05 + _C07 + _C14 + _C15 + _C16 + _C19 + _C20 + _C01 + _C18 + _C09 + _C08 + _C03 + _C04 + _C12 + _C13 + _C16b
+BP = "distance3d/broad_phase.py"
+SCF = "distance3d/self_collision.py"
+_C06 = [
+    M(["C06"], "bvh-aabb-before-update", BP, "BoundingVolumeHierarchy.update_collider_poses",
+      "collider.update_pose(A2B)\nself.aabbtree_.insert_aabb(collider.aabb(), (frame, collider))", "self.aabbtree_.insert_aabb(collider.aabb(), (frame, collider))\ncollider.update_pose(A2B)", ["R-UPDATEORDER", "update_pose before"]),
+    M(["C06"], "bvh-no-fresh-tree", BP, "BoundingVolumeHierarchy.update_collider_poses", "self.aabbtree_ = AabbTree()", "", ["R-UPDATEORDER", "fresh tree"]),
+    M(["C06"], "bvh-wrong-target-frame", BP, "BoundingVolumeHierarchy.update_collider_poses", "self.tm.get_transform(frame, 'origin')", "self.tm.get_transform(frame, self.base_frame)", ["R-UPDATEORDER", "get_transform"]),
+    M(["C06"], "bvh-inverse-lookup", BP, "BoundingVolumeHierarchy.update_collider_poses", "self.tm.get_transform(frame, 'origin')", "self.tm.get_transform('origin', frame)", ["R-UPDATEORDER", "get_transform"]),
+    M(["C06"], "bvh-no-update-pose", BP, "BoundingVolumeHierarchy.update_collider_poses", "collider.update_pose(A2B)", "", ["R-UPDATEORDER", "update_pose before"]),
+    M(["C06"], "bvh-payload-swapped", BP, "BoundingVolumeHierarchy.update_collider_poses", "(frame, collider)", "(collider, frame)", ["R-UPDATEORDER", "payload"]),
+    M(["C06"], "bvh-add-collider-no-insert", BP, "BoundingVolumeHierarchy.add_collider", "self.aabbtree_.insert_aabb(collider.aabb(), (frame, collider))", "", ["R-UPDATEORDER", "add_collider"]),
+    M(["C06"], "bvh-pairs-swapped", BP, "BoundingVolumeHierarchy.aabb_overlapping_with_other_bvh", "other_bvh.aabbtree_.external_data_list[pair[1]]", "other_bvh.aabbtree_.external_data_list[pair[0]]", ["R-PAYLOAD", "other_bvh"]),
+    M(["C06"], "bvh-self-skip-wrong", BP, "BoundingVolumeHierarchy.aabb_overlapping_with_self", "pair[0] == pair[1]", "pair[0] >= pair[1]", ["R-PAYLOAD", "self pairs"]),
+    M(["C06"], "bvh-whitelist-filter-all", BP, "BoundingVolumeHierarchy.aabb_overlapping_colliders", "for frame in whitelist:\n    colliders.pop(frame, None)", "for frame in list(colliders):\n    colliders.pop(frame, None)", ["R-PAYLOAD", "whitelisted"]),
+    M(["C06"], "bvh-query-other-box", BP, "BoundingVolumeHierarchy.aabb_overlapping_colliders", "aabb = collider.aabb()", "aabb = self.aabbtree_.get_root_aabb()", ["R-PAYLOAD", "query box"]),
+    M(["C06"], "sc-wrong-whitelist", SCF, "detect", "bvh.self_collision_whitelists_[frame]", "bvh.self_collision_whitelists_[frame2] if False else ()", ["R-WHITELIST", "detect|candidates"]),
+    M(["C06"], "sc-marks-one-frame", SCF, "detect", "contacts[frame2] = True", "", ["R-WHITELIST", "marks both"]),
+    M(["C06"], "sc-any-return-false-early", SCF, "detect_any", "return True", "return False", ["R-WHITELIST", "detect_any"]),
+    M(["C06"], "sc-extra-filter", SCF, "detect", "if gjk.gjk_intersection(collider, collider2):\n    contacts[frame] = True\n    contacts[frame2] = True\n    break",
+      "if frame < frame2 and gjk.gjk_intersection(collider, collider2):\n    contacts[frame] = True\n    contacts[frame2] = True\n    break", ["R-WHITELIST", "narrow phase"]),
+    M(["C06"], "sc-same-collider-twice", SCF, "detect_any", "gjk.gjk_intersection(collider, collider2)", "gjk.gjk_intersection(collider, collider)", ["R-WHITELIST", "detect_any", "narrow phase"]),
+    M(["C06", "C05"], "tree-one-child-c06", AT, "query_overlap", "stack.extend([nodes[node_index, 1], nodes[node_index, 2]])", "stack.extend([nodes[node_index, 2]])", ["R-TRAVERSE"]),
+]
 
-FLOORS = {"C05": 40, "C07": 14, "C14": 9, "C15": 8, "C16": 12, "C19": 14, "C20": 10, "C01": 24, "C18": 24, "C09": 24, "C08": 10, "C02": 20, "C03": 18, "C04": 12, "C12": 20, "C13": 10}
+_ALL = _C06 + _C05 + _C07 + _C14 + _C15 + _C16 + _C19 + _C20 + _C01 + _C18 + _C09 + _C08 + _C03 + _C04 + _C12 + _C13 + _C16b
+
+FLOORS = {"C05": 40, "C07": 14, "C14": 9, "C15": 8, "C16": 12, "C19": 14, "C20": 10, "C01": 24, "C18": 24, "C09": 24, "C08": 10, "C02": 20, "C03": 18, "C04": 12, "C12": 20, "C13": 10, "C06": 14}
 
 
 def all_mutants():
